@@ -298,6 +298,15 @@ Definition round_half_even (x : Q) : Z :=
   if (2 * r <? d)%Z then q else if (d <? 2 * r)%Z then (q + 1)%Z
   else if Z.even q then q else (q + 1)%Z.
 
+(* the population random.sample draws the default / rho start nodes from: list(G), or, when
+   initial_recovereds is given, [node for node in G if node not in set(initial_recovereds)]
+   (graph order) *)
+Definition sample_pop (g : graph) (r0 : option (list node)) : list node :=
+  match r0 with
+  | None => gnodes g
+  | Some l => filter (fun u => negb (mem u l)) (gnodes g)
+  end.
+
 (* argument handling of fast_nonMarkov_SIR (sim:2306-2345) *)
 Definition fast_nonmarkov (tb : tiepolicy) (g : graph) (prov : provider)
     (i0 r0 : option (list node)) (rho : option Q) (tmin : Q) (tmax : xtime)
@@ -314,7 +323,7 @@ Definition fast_nonmarkov (tb : tiepolicy) (g : graph) (prov : provider)
     | None =>
       let n := match rho with None => 1%Z | Some r => round_half_even (Qnat (length (gnodes g)) * r) end in
       if (n <? 0)%Z then Fail ValueErr
-      else Sample (map knode (gnodes g)) (Z.to_nat n) (fun ks => go (concat ks))
+      else Sample (map knode (sample_pop g r0)) (Z.to_nat n) (fun ks => go (concat ks))
     end
   end.
 
